@@ -115,6 +115,27 @@ def run(ctx):
             ctx.violation("netlist execution on %s/%s rejected (%s: %s): accepted %d of %d events, at event %s" %
                           (be, kind, bad["violated"] or "no matching action", what, bad["accepted_prefix"], bad["of"], (bad["event"] or "")[:200]), detail=bad, files=[pf, tf])
         ctx.add("gate_evaluations", p.gates)
+    # 3. "|mean| <= 0.25 * bound for all key seeds": the pooled statistics above mix few gates per key; a bias that belongs to a key (e.g. key-switching noise that is
+    #    not centred) needs many gates under one key and several keys.  One process per key seed, run side by side; each trace is validated on its own.
+    from concurrent.futures import ThreadPoolExecutor
+    bias_seeds = [ctx.seed * 7 + k for k in range(1, 13 if thorough else 4)]
+    def bias_run(sd):
+        bp = progs.Prog()
+        progs.random_program(bp, 128 if sd % 4 else 80, sd, random.Random(sd * 101), 8, 4200 if thorough else 2800)
+        return sd, bp, gates.exec_program(ctx, bp, "spqlios-fma", "optim", "bias-%d" % sd, timeout=7200)
+    with ThreadPoolExecutor(max_workers=6 if thorough else 3) as ex:
+        results = list(ex.map(bias_run, bias_seeds))
+    for sd, bp, (rc, err, pf, tf) in results:
+        if rc != 0:
+            ctx.violation("netlist program died (key seed %d) rc=%s %s" % (sd, rc, err[-300:]), key="h_gates crash bias run", files=[pf])
+            continue
+        bad = gates.validate_trace(ctx, tf, 16, what="C02 bias run, key seed %d" % sd)
+        if bad:
+            what = "mean / standard deviation of the gate-output phase error under this key outside the acceptance region" if bad["violated"] == "StatsAccepted" else \
+                   "a wire decrypts differently from the plaintext evaluation / a gate output is inadmissible" if bad["violated"] in ("Correct", "Admissible") else "an event is not a MachineP step"
+            ctx.violation("long netlist under one key (key seed %d) rejected (%s: %s): accepted %d of %d events, at event %s; %s" %
+                          (sd, bad["violated"] or "no matching action", what, bad["accepted_prefix"], bad["of"], (bad["event"] or "")[:200], ctx.cov.get("noise_stats_last", "")[:300]), detail=bad, files=[pf, tf])
+        ctx.add("gate_evaluations", bp.gates)
     integration(ctx, thorough)
     ctx.sample({"programs": "random(8 regs, 260 gates), chain(70), ripple-carry adder+comparator(4 bits, fed back), mux tree with heavy fan-out, TLC-generated behaviours", "first_ops": p.lines[:10]})
     ctx.assume("acceptance regions: sd <= bound*(1+8/sqrt(2n)), |mean| <= bound/4 + 8*bound/sqrt(n), |error| < 3/64, class variances (fresh/deep/noisy inputs) pairwise within 8 estimator sigma; statistical by nature")
